@@ -107,7 +107,16 @@ class Ctx:
         its scenarios and passed): a form the structural rule cannot read is informational, and with demote=True its findings
         are too (the rule is a proxy that met an unfamiliar but correct form)."""
         if not decided:
-            return fn()
+            try:
+                return fn()
+            except AnalysisError as e:
+                if not self.violations:
+                    raise
+                # the run already reports a violation found by another rule: a form this rule cannot read does not turn the
+                # verdict into "no verdict"
+                self.info(f"{rid}: not applicable to this form of the code ({str(e)[:200]}); the violation(s) reported by other rules stand")
+                self.floors.pop(rid, None)
+                return None
         mark = len(self.violations)
         marks = {r: len(l) for r, l in self.instances.items()}
         try:
